@@ -59,6 +59,10 @@ def main(argv=None) -> int:
         return 2
     t0 = time.time()
     tier = "thorough" if thorough else "quick"
+    if thorough:
+        import os
+
+        os.environ["SA_THOROUGH"] = "1"  # read by sa.geometry at import: wider enumeration ranges
     try:
         mod = load_prop(pid)
         project = Project()
